@@ -10,6 +10,8 @@
 #include <yaclib/async/wait.hpp>
 #include <yaclib/async/when_all.hpp>
 #include <yaclib/async/when_any.hpp>
+#include <yaclib/coro/await.hpp>
+#include <yaclib/coro/future.hpp>
 #include <yaclib/exe/inline.hpp>
 #include <yaclib/runtime/fair_thread_pool.hpp>
 
@@ -41,13 +43,15 @@ enum Op : int {
   kCopyUse,
   kWhenAllCopies,
   kWhenAnyCopies,
+  kCoAwait,       // a coroutine co_awaits the copy (value by const&, failure rethrown)
+  kCoAwaitAwait,  // a coroutine co_awaits Await(copy), then reads the copy, which must be ready
   kGetMove,     // consumes the observer's copy: always last
   kDropCopy,    // destroys the observer's copy: always last
   kOpCount
 };
 const char* kOpNames[] = {"ThenInline", "Then(e)", "SubscribeInline", "Subscribe(e)", "Share().Get", "Share(e).ThenInline", "Connect(unique promise)",
                           "Connect(shared promise)", "Wait+Touch", "Get const&", "Ready()+Touch", "copy, use the copy, destroy it", "WhenAll(copy, copy)",
-                          "WhenAny(copy, copy)", "Get&&", "drop own copy"};
+                          "WhenAny(copy, copy)", "co_await copy", "co_await Await(copy)", "Get&&", "drop own copy"};
 enum Producer : int { kSetValue, kSetError, kSetException, kDropPromise, kProducerCount };
 const char* kProducerNames[] = {"Set(value)", "Set(error)", "Set(exception)", "drop promise"};
 
@@ -71,6 +75,7 @@ class Case final : public sim::CaseBase {
     producer = static_cast<int>(g.Draw(kProducerCount));
     observers = 2 + static_cast<int>(g.Draw(3));
     promise_first = g.Flip();
+    split_unique = !promise_first && g.Draw(3) == 2;
     by_reference = g.Draw(4) == 3;
     exec_pool = g.Flip();
     pool_workers = 1 + g.Draw(2);
@@ -97,7 +102,7 @@ class Case final : public sim::CaseBase {
   }
 
   void Describe(sim::Json& j) const final {
-    j.KV("producer", kProducerNames[producer]).KV("created_by", promise_first ? "MakeSharedPromise + Split" : "MakeSharedContract");
+    j.KV("producer", kProducerNames[producer]).KV("created_by", promise_first ? "MakeSharedPromise + Split(promise)" : (split_unique ? "MakeContract + Split(Future&&)" : "MakeSharedContract"));
     j.KV("observers_use", by_reference ? "one SharedFuture by const reference" : "their own copies");
     j.KV("executor", exec_pool ? "proxy(pool)" : "proxy(inline)").KV("pool_workers", pool_workers).KV("producer_delay", prod_delay);
     j.Key("observers").Arr();
@@ -141,6 +146,30 @@ class Case final : public sim::CaseBase {
       ++attached[slot].calls;
       Saw(observer, op, sim::Observe(r, kOpNames[op]));
     };
+  }
+
+  static yaclib::Future<> AwaitCopy(Case* c, int o, std::size_t slot, SF copy) {
+    Outcome got;
+    try {
+      const T& v = co_await copy;
+      got = {OKind::Value, v.Read("value of co_await shared future")};
+    } catch (...) {
+      got = sim::OutcomeOfEx(std::current_exception());
+    }
+    ++c->attached[slot].calls;
+    c->Saw(o, kCoAwait, got);
+    co_return {};
+  }
+
+  static yaclib::Future<> AwaitViaAwait(Case* c, int o, std::size_t slot, SF copy) {
+    co_await yaclib::Await(copy);
+    ++c->attached[slot].calls;
+    if (!copy.Valid() || !copy.Ready()) {
+      sim::Fail("WAIT_NOT_READY", "co_await Await(copy) resumed but the shared future is not valid and ready");
+      co_return {};
+    }
+    c->Saw(o, kCoAwaitAwait, sim::Observe(copy.Touch(), "Touch after co_await Await(copy)"));
+    co_return {};
   }
 
   void Observe(int o, const SF& base, SF* own) {
@@ -222,6 +251,15 @@ class Case final : public sim::CaseBase {
           auto f = yaclib::WhenAny(SF{c}, SF{c});
           Saw(o, op, sim::Observe(std::move(f).Get(), "WhenAny(copies)"));
         } break;
+        case kCoAwait:
+        case kCoAwaitAwait: {
+          const std::size_t slot = NewAttached(o, op);
+          auto f = op == kCoAwait ? AwaitCopy(this, o, slot, SF{c}) : AwaitViaAwait(this, o, slot, SF{c});
+          auto r = std::move(f).Get();
+          if (!r) {
+            sim::Fail("COROUTINE_FAILED", "the observer coroutine did not finish with a value");
+          }
+        } break;
         case kGetMove: {
           if (own != nullptr) {
             SIM_PROBE("get_rvalue");
@@ -246,7 +284,13 @@ class Case final : public sim::CaseBase {
     {
       SF root;
       yaclib::SharedPromise<T, E> promise;
-      if (promise_first) {
+      yaclib::Promise<T, E> unique_promise;
+      if (split_unique) {
+        // the shared state is fed by a unique future through Connect: the producer fulfils the unique promise
+        auto [f, p] = yaclib::MakeContract<T, E>();
+        root = yaclib::Split(std::move(f));
+        unique_promise = std::move(p);
+      } else if (promise_first) {
         promise = yaclib::MakeSharedPromise<T, E>();
         root = yaclib::Split(promise);
       } else {
@@ -259,7 +303,7 @@ class Case final : public sim::CaseBase {
         copies.push_back(by_reference ? SF{} : (promise_first && (o % 2) == 1 ? yaclib::Split(promise) : SF{root}));
       }
       SF by_ref_handle = by_reference ? root : SF{};
-      yaclib_std::thread prod{[this, pp = std::move(promise)]() mutable {
+      auto fulfil = [this](auto pp) {
         for (std::uint32_t y = 0; y < prod_delay; ++y) {
           sim::Yield();
         }
@@ -277,7 +321,13 @@ class Case final : public sim::CaseBase {
           } break;
         }
         set_return = sim::Seq();
-      }};
+      };
+      yaclib_std::thread prod = split_unique ? yaclib_std::thread{[fulfil, pp = std::move(unique_promise)]() mutable {
+        fulfil(std::move(pp));
+      }}
+                                             : yaclib_std::thread{[fulfil, pp = std::move(promise)]() mutable {
+                                                 fulfil(std::move(pp));
+                                               }};
       std::deque<yaclib_std::thread> ts;
       for (int o = 0; o < observers; ++o) {
         ts.emplace_back([this, o, &by_ref_handle, &copies] {
@@ -336,6 +386,7 @@ class Case final : public sim::CaseBase {
   }
 
   int producer = 0, observers = 2;
+  bool split_unique = false;
   bool promise_first = false, by_reference = false, exec_pool = false, root_drops_early = false;
   std::uint32_t pool_workers = 1, prod_delay = 0, id = 1;
   std::vector<std::vector<int>> programs;
@@ -350,5 +401,5 @@ class Case final : public sim::CaseBase {
 }  // namespace
 
 SIM_HARNESS("C06", "c06_shared", Case,
-            "WRONG_RESULT EARLY LOST DUPLICATE MOVED_FROM_READ TORN WRONG_EXECUTOR STALE_PAYLOAD WAIT_NOT_READY LEAK LEAK_OBJECT DOUBLE_DESTROY USE_AFTER_DESTROY "
+            "WRONG_RESULT EARLY LOST DUPLICATE COROUTINE_FAILED MOVED_FROM_READ TORN WRONG_EXECUTOR STALE_PAYLOAD WAIT_NOT_READY LEAK LEAK_OBJECT DOUBLE_DESTROY USE_AFTER_DESTROY "
             "JOB_LOST EXECUTOR_REF_LEAK DEADLOCK NO_PROGRESS CRASH:*")
